@@ -30,9 +30,10 @@ static const char *EXTRA = "";      /* 12th field: the atoms of a CrystalDef lin
  * 1e-10 relative of the argument), the C outcomes at x (1 - 1e-10) and x (1 + 1e-10): "ok,hi,lo/ok,hi,lo".  The two implementations hold their tables at
  * different precision (C: 11 significant digits, Java: unrounded) and use different libm's, so which side of a discontinuity such an argument falls on
  * is itself a matter of round-off; XrlEquiv accepts the Java outcome if it matches the C outcome at the argument or at one of these two neighbours. */
-static char ALTBUF[256]; static const char *ALT = "";
+static char ALTBUF[256]; static const char *ALT = ""; static int CEDGE = 0;     /* 14th field: the first continuous argument is bit-equal to an edge energy of element i0 */
 static void neighbours(ApiFn *f, const int *ia, const double *da, const char *s, double v, int ok) {
-  ALT = ""; if (da[0] == 0.0 || !isfinite(da[0])) return;
+  ALT = ""; CEDGE = 0; if (da[0] == 0.0 || !isfinite(da[0])) return;
+  if (SIG_NI[f->sig] >= 1 && ia[0] >= 1 && ia[0] <= ZMAX) for (int sh = 0; sh < SHELLNUM && !CEDGE; sh++) if (EdgeEnergy_arr[ia[0]][sh] == da[0]) CEDGE = 1;
   double d2[3] = {da[0], da[1], da[2]}; int oks[2]; double vs[2];
   for (int k = 0; k < 2; k++) { d2[0] = da[0] * (k ? 1.0 + 1e-10 : 1.0 - 1e-10); xrl_error *e = NULL; vs[k] = api_call(f, ia, d2, s, &e); oks[k] = e == NULL; xrl_clear_error(&e); }
   int flat = 1; for (int k = 0; k < 2; k++) if (oks[k] != ok || (ok && fabs(vs[k] - v) > 1e-9 * fabs(v))) flat = 0;
@@ -42,7 +43,7 @@ static void neighbours(ApiFn *f, const int *ia, const double *da, const char *s,
 }
 static void line(const char *fn, const char *sig, int i0, int i1, const double *d, const char *s, int ok, long hash, const char *cd) {
   int64_t b[3]; memcpy(b, d, 24);
-  fprintf(OUT, "%s|%s|%d|%d|%lld|%lld|%lld|%s|%d|%ld|%s|%s|%s\n", fn, sig, i0, i1, (long long)b[0], (long long)b[1], (long long)b[2], s ? s : "", ok, hash, cd, EXTRA, ALT); ALT = "";
+  fprintf(OUT, "%s|%s|%d|%d|%lld|%lld|%lld|%s|%d|%ld|%s|%s|%s|%d\n", fn, sig, i0, i1, (long long)b[0], (long long)b[1], (long long)b[2], s ? s : "", ok, hash, cd, EXTRA, ALT, CEDGE); ALT = ""; CEDGE = 0;
 }
 static const char *SIGN[] = {"I", "II", "ID", "IID", "IDD", "IDDD", "D", "DD", "DDD", "SD", "SDD", "SDDD"};
 static const char *STR[] = {"H2O", "Ca5(PO4)3OH", "Fe", "U", "SiO2", "C6H12O6", "Water, Liquid", "Polyethylene", "Bone, Cortical (ICRP)", "H2O)", "Unobtainium", "Rf", "", "(((H)))", "U0.5Pu0.5O2", "H0", "Fe 2", "55Fe", "241Am", "nope"};
@@ -70,6 +71,18 @@ int cmd_c19(int argc, char **argv) {
       }
     }
   }
+  /* ---- "every argument tuple": the non-finite doubles (NaN, +Inf, -Inf) in each continuous position, the other positions ordinary */
+  { static const int ZN[] = {-1, 1, 26, 82, 200}; static const int MN[] = {0, -3, 3, -90}; static const int SN[] = {0, 6, 10};
+    const double NF[] = {NAN, INFINITY, -INFINITY}; int idx2 = 0;
+    for (ApiFn *f = API_TABLE; f->name; f++) {
+      if (idx2++ % np != part) continue;
+      int ni = SIG_NI[f->sig], nd = SIG_ND[f->sig], ns = SIG_NS[f->sig]; if (!nd) continue;
+      for (int zi = 0; zi < (ni ? 5 : 1); zi++) for (int mi = 0; mi < (ni > 1 ? 4 : 1); mi++) for (int si = 0; si < (ns ? 3 : 1); si++) for (int pos = 0; pos < nd; pos++) for (int k = 0; k < 3; k++) {
+        int ia[2] = {ni ? ZN[zi] : 0, ni > 1 ? MN[mi] : 0}; double da[3] = {10.0, 1.0, 0.5}; da[pos] = NF[k];
+        xrl_error *e = NULL; double v = api_call(f, ia, da, ns ? STR[SN[si]] : NULL, &e); dbits(cd, &v, 1);
+        line(f->name, SIGN[f->sig], ia[0], ia[1], da, ns ? STR[SN[si]] : "", e == NULL, 0, e == NULL ? cd : ""); xrl_clear_error(&e);
+      }
+    } }
   /* ---- the interpolated quantities at the places where an interpolation routine takes decisions: both ends of every table, every knot interval
    * narrower than 1e-6 (duplicated knots encode edges) at its two knots and in between, and a handful of seeded knots and midpoints */
   {
